@@ -1,16 +1,26 @@
 """C16 — LDM operations are atomic under concurrent providers, consumers and maintenance.
 
-Theorems: lean/Props/C16.lean (every schedule of the block model lean/FlexModel/Conc/LdmConc.lean).
+Theorems: lean/Props/C16.lean (every schedule of the block model lean/FlexModel/Conc/LdmConc.lean; operation-level
+linearisability outside the known region, `operations_linearizable`), lean/Props/C16Reduction.lean (the block model
+over-approximates the instruction-level model: instantiation of lean/Props/ConcReduction.lean).
 Tie: (i) lean/Generated/Locks.lean (harness/gen_locks.py): every DictionaryDataBase method / LDMService registry section
-is ONE lock section containing all accesses, no lock is held across the calls of the multi-block operations – `decide`d
-in LdmConc; (ii) schedule-level correspondence: 2-4 REAL threads issue IF.LDM.3 / IF.LDM.4 calls, maintenance passes and
-attendance passes against the in-memory back-end (plain, reactive and thread variants; the background loops of the
-thread variants are replaced by scheduler-driven threads running one pass) under harness/dsched.py; every observed
-outcome must be producible by the Lean block model under SOME schedule (driver `ConcLdm explore …`).
+is ONE lock section containing all accesses, no lock is held across the calls of the multi-block operations;
+lean/Generated/LdmShape.lean (harness/gen_ldm_shape.py): the synchronisation skeletons of the multi-block operations
+(sections, loops, lock-taking calls in source order) and "no method stores into an object fetched from the data base" –
+all `decide`d / `rfl` in LdmConc; (ii) schedule-level correspondence: 2-4 REAL threads issue IF.LDM.3 / IF.LDM.4 calls,
+maintenance passes and attendance passes against the in-memory back-end (plain, reactive and thread variants; the
+background loops of the thread variants are replaced by scheduler-driven threads running one pass) under
+harness/dsched.py – scripted scenarios plus scenarios generated from the whole operation alphabet; schedules are
+enumerated lock-boundary pre-emptions first; every observed outcome must be producible by the Lean block model under
+SOME schedule (driver `ConcLdm explore …`).
 Oracle: linearisability search of the recorded history (responses, callbacks, final store / registries / subscriptions,
-real-time order) against a simple reference map written from the property text; exceptions; deadlock; id uniqueness.
+real-time order) against a simple reference map written from the property text; exceptions; deadlock; id uniqueness;
+responses are values (deep copies taken at delivery must still equal the delivered objects at the end); a filtered
+request returns only objects satisfying its filter.
 """
 from __future__ import annotations
+
+import copy
 
 import common
 from common import Infra, corpus
@@ -30,22 +40,28 @@ import flexstack.facilities.local_dynamic_map.if_ldm_3 as if3_mod
 import flexstack.facilities.local_dynamic_map.if_ldm_4 as if4_mod
 from flexstack.facilities.local_dynamic_map.ldm_constants import CAM, DENM, VAM
 
-MODULES = ["Props.C16"]
+MODULES = ["Props.C16", "Props.C16Reduction", "Props.ConcReduction"]
 DRIVERS = ["ConcLdm"]
 TRUSTED = [
     "CPython: a single dict/set/list method call and a single attribute load/store are atomic (the scheduler pre-empts "
     "between bytecodes, never inside one); threading.Lock/RLock/Thread are replaced by scheduler-aware equivalents",
-    "block model: a `with lock:` section is one atomic block (justified by the generated lock map, validated by the "
-    "bytecode-level exploration); records are codes 2*payload+expiredBit: queries return the payload, the bit stands for "
-    "timestamp/time validity, an update replaces the payload and keeps the bit",
-    "harness/gen_locks.py, harness/dsched.py, the reference map and the linearisability search in this file",
+    "block model: records are codes 2*payload+expiredBit: queries return the payload, the bit stands for timestamp/time "
+    "validity, an update replaces the payload and keeps the bit; the hand-stated micro-step decomposition of the lock "
+    "sections and its read/write sets (lean/FlexModel/Conc/LdmFine.lean) mirror the accesses listed in Generated/Locks.lean; "
+    "`updMt`: get+update under LDMMaintenanceThread.data_containers_lock is ONE block (generated fact `mt_wraps`, not reduced)",
+    "harness/gen_locks.py, harness/gen_ldm_shape.py, harness/dsched.py, the reference map and the linearisability search in this file",
 ]
 ASSUMPTIONS = [
     "in-memory back-end (DictionaryDataBase); TinyDB is out of the property's scope",
     "fixes C12-delete-by-id, C12-update-keeps-record, C14-no-callback-after-deregister are part of the code under test; "
     "on a tree without them the scenarios that exercise update / delete / deregistration are skipped (noted in evidence)",
+    "the model mirrors the code WITH fixes C16-delete-result and C16-unsubscribe-result (fixes/C16-*.diff): on a tree "
+    "without them the check reports the double delete / double unsubscribe as violations",
     "known finding C16-KF1: IF.LDM.3 update_provider_data is check-then-act (exists; get; get; update) without a lock "
     "across the steps in the plain / reactive maintenance variants",
+    "known finding C16-KF2: registration checks are check-then-act (an operation overlapping a deregistration of its own "
+    "application takes effect after it; two overlapping deregistrations are both acknowledged; an attendance pass may "
+    "notify a consumer that deregistered between its registration check and its search)",
     "objects are placed outside the LDM's area of maintenance (area collection = known finding C12-KF1)",
 ]
 
@@ -160,6 +176,10 @@ class Ref:
             if op[2] not in self.cons:
                 return (0, None)
             return (1, tuple(v // 2 for v in self.store.values()))
+        if k == "qryf":                      # filtered request: cam.v == op[3] AND cam.w == op[4] (both carry the payload)
+            if op[2] not in self.cons:
+                return (0, None)
+            return (1, tuple(v // 2 for v in self.store.values() if v // 2 == op[3] == op[4]))
         if k == "sub":
             if op[2] not in self.cons:
                 return (0,)
@@ -211,7 +231,8 @@ class Ref:
         raise Infra(f"reference: unknown op {op}")
 
 
-GATED = {"add": "prov", "qry": "cons", "sub": "cons", "unsub": "cons"}
+GATED = {"add": "prov", "qry": "cons", "qryf": "cons", "sub": "cons", "unsub": "cons", "deregP": "prov", "deregC": "cons"}
+APP_OPS = {"prov": ("regP", "deregP", "add"), "cons": ("regC", "deregC", "qry", "qryf", "sub", "unsub")}
 
 
 def gate_observed(op, resp):
@@ -221,6 +242,11 @@ def gate_observed(op, resp):
 def apply_action(ref, op, passed, fixed):
     """the action of a gated operation given the outcome of its registration check"""
     reg = ref.prov if GATED[op[0]] == "prov" else ref.cons
+    if op[0] in ("deregP", "deregC"):        # check failed: nothing happens; check passed: discard (idempotent)
+        if not passed:
+            return (0,)
+        reg.add(op[2])
+        return ref.apply(op, fixed)
     had = op[2] in reg
     (reg.add if passed else reg.discard)(op[2])
     try:
@@ -229,13 +255,62 @@ def apply_action(ref, op, passed, fixed):
         (reg.add if had else reg.discard)(op[2])
 
 
-def linearizable(history, final_key, fixed, setup, split_gates=False):
+def app_of(op):
+    """(registry, application) an operation reads or writes, or None"""
+    k = op[0]
+    for reg, names in APP_OPS.items():
+        if k in names:
+            return (reg, op[1] if k in ("regP", "regC") else op[2])
+    return None
+
+
+def kf2_region(history):
+    """C16-KF2, exact region: the gated operations (registration check, then the action in another lock section) that
+    OVERLAP IN REAL TIME a deregistration of their own application by another operation.  Only these may be given two
+    linearisation points when a history is tested for membership in the known finding."""
+    out = set()
+    for i, (op, _, inv, ret) in enumerate(history):
+        if op[0] not in GATED and op[0] != "attend":
+            continue
+        for j, (op2, _, inv2, ret2) in enumerate(history):
+            if j == i or op2[0] not in ("deregP", "deregC") or ret2 < inv or ret < inv2:
+                continue
+            # an attendance pass checks the registration of every subscriber before it searches for it
+            if (op[0] == "attend" and op2[0] == "deregC") or (op[0] != "attend" and app_of(op2) == app_of(op)):
+                out.add(i)
+    return frozenset(out)
+
+
+def upd_steps(op, ref, phase, bit, thread_variant):
+    """C16-KF1: IF.LDM.3 update_provider_data as the code executes it - exists ; get (type check) ; get ; update, each
+    its own database lock section (with LDMMaintenanceThread the last two are one `data_containers_lock` section).
+    Returns (next phase | None, captured validity bit, response | None); mutates `ref` in the last step."""
+    i, w = op[2], op[3]
+    present = i in ref.store
+    if phase == 0:
+        return (1, bit, None) if present else (None, bit, (1,))
+    if phase == 1:
+        return (2, bit, None) if present else (None, bit, (2,))
+    if phase == 2:
+        if not present:
+            return (None, bit, (2,))
+        if thread_variant:
+            ref.store[i] = 2 * w + ref.store[i] % 2
+            return (None, bit, (0,))
+        return (3, ref.store[i] % 2, None)
+    ref.store[i] = 2 * w + bit               # `database[index] = data`: re-creates an absent row
+    return (None, bit, (0,))
+
+
+def linearizable(history, final_key, fixed, setup, split_gates=frozenset(), split_upd=False, thread_variant=False):
     """history: list of (op, response, inv_index, ret_index).  Wing & Gong search with memoisation.
     A maintenance pass (`gc`) is not required to be atomic: it is explained as a series of deletions of objects that
     are expired at the moment they are deleted, each taking effect somewhere between the pass's invocation and its
     return (an expired object may disappear at any instant).  An attendance pass is a loop over a copy of the
     subscription list: each subscription is served (registration check, query, callback) at its own instant.  Every
-    other operation takes effect atomically."""
+    other operation takes effect atomically - except, when a history is tested for membership in a KNOWN finding,
+    the operations named by `split_gates` (history indices: registration check and action at two instants, C16-KF2)
+    and, with `split_upd`, every `upd` (the code's four steps at four instants, C16-KF1)."""
     n = len(history)
     ref0 = Ref()
     for op in setup:
@@ -243,13 +318,15 @@ def linearizable(history, final_key, fixed, setup, split_gates=False):
     before = [[j for j in range(n) if history[j][3] < history[i][2]] for i in range(n)]
     is_gc = [history[i][0][0] == "gc" for i in range(n)]
     seen = set()
+    if split_gates is True:
+        split_gates = frozenset(i for i in range(n) if history[i][0][0] in GATED)
 
     is_att = [history[i][0][0] == "attend" for i in range(n)]
 
-    def go(done, opened, ref, gated=frozenset(), att=frozenset()):
+    def go(done, opened, ref, gated=frozenset(), att=frozenset(), upds=frozenset()):
         if len(done) == n:
             return ref.key() == final_key
-        k = (done, opened, ref.key(), gated, att)
+        k = (done, opened, ref.key(), gated, att, upds)
         if k in seen:
             return False
         seen.add(k)
@@ -257,55 +334,73 @@ def linearizable(history, final_key, fixed, setup, split_gates=False):
             i, remaining, calls, drop = a
             if remaining:
                 sid = remaining[0]
-                if sid // 100 not in ref.cons:
+                if isinstance(sid, tuple):     # KF2 region only: registration already checked, the search happens now
+                    rows = tuple(v // 2 for v in ref.store.values())
+                    a2 = (i, remaining[1:], calls + (((sid[0], rows),) if rows else ()), drop)
+                elif sid // 100 not in ref.cons:
                     a2 = (i, remaining[1:], calls, drop + (sid,))
+                elif i in split_gates:
+                    a2 = (i, ((sid,),) + remaining[1:], calls, drop)
                 else:
                     rows = tuple(v // 2 for v in ref.store.values())
                     a2 = (i, remaining[1:], calls + (((sid, rows),) if rows else ()), drop)
-                if go(done, opened, ref, gated, (att - {a}) | {a2}):
+                if go(done, opened, ref, gated, (att - {a}) | {a2}, upds):
                     return True
             elif calls == history[i][1]:
                 r2 = ref.copy()
                 r2.subs = [x for x in r2.subs if x not in drop]
-                if go(done | {i}, opened, r2, gated, att - {a}):
+                if go(done | {i}, opened, r2, gated, att - {a}, upds):
                     return True
         for g in opened:                       # a step of a running maintenance pass, or its end
-            if go(done | {g}, opened - {g}, ref, gated, att):
+            if go(done | {g}, opened - {g}, ref, gated, att, upds):
                 return True
             for i, v in list(ref.store.items()):
                 if v % 2 == 1:
                     r2 = ref.copy()
                     del r2.store[i]
-                    if go(done, opened, r2, gated, att):
+                    if go(done, opened, r2, gated, att, upds):
                         return True
-        for i in gated:                        # second half of a gated operation (split_gates only)
+        for i in gated:                        # second half of a gated operation (KF2 region only)
             op, resp = history[i][0], history[i][1]
             r2 = ref.copy()
             if apply_action(r2, op, gate_observed(op, resp), fixed) == resp:
-                if go(done | {i}, opened, r2, gated - {i}, att):
+                if go(done | {i}, opened, r2, gated - {i}, att, upds):
                     return True
-        running = {a[0] for a in att}
+        for u in upds:                         # next step of a split update (KF1 test only)
+            i, phase, bit = u
+            r2 = ref.copy()
+            nxt, bit2, resp = upd_steps(history[i][0], r2, phase, bit, thread_variant)
+            if nxt is None:
+                if resp == history[i][1] and go(done | {i}, opened, r2, gated, att, upds - {u}):
+                    return True
+            elif go(done, opened, r2, gated, att, (upds - {u}) | {(i, nxt, bit2)}):
+                return True
+        running = {a[0] for a in att} | {u[0] for u in upds}
         for i in range(n):
             if i in done or i in opened or i in gated or i in running or any(j not in done for j in before[i]):
                 continue
             if is_gc[i]:
-                if go(done, opened | {i}, ref, gated, att):
+                if go(done, opened | {i}, ref, gated, att, upds):
                     return True
                 continue
             if is_att[i] and fixed.get("attend_checks_first"):
-                if go(done, opened, ref, gated, att | {(i, tuple(ref.subs), (), ())}):
+                if go(done, opened, ref, gated, att | {(i, tuple(ref.subs), (), ())}, upds):
                     return True
                 continue
             op, resp = history[i][0], history[i][1]
-            if split_gates and op[0] in GATED:
+            if i in split_gates and op[0] in GATED:
                 reg = ref.prov if GATED[op[0]] == "prov" else ref.cons
                 if (op[2] in reg) == gate_observed(op, resp):
-                    if go(done, opened, ref, gated | {i}, att):
+                    if go(done, opened, ref, gated | {i}, att, upds):
                         return True
+                continue
+            if split_upd and op[0] == "upd":
+                if go(done, opened, ref, gated, att, upds | {(i, 0, 0)}):
+                    return True
                 continue
             r2 = ref.copy()
             if r2.apply(op, fixed) == resp:
-                if go(done | {i}, opened, r2, gated, att):
+                if go(done | {i}, opened, r2, gated, att, upds):
                     return True
         return False
     return go(frozenset(), frozenset(), ref0)
@@ -319,7 +414,7 @@ def mk_add(aid, code, now_its):
     exp = code % 2
     ts = K.TimestampIts(now_its - (100000 if exp else 0))
     loc = K.Location.initializer(latitude=515000000, longitude=21000000)       # outside the area of maintenance
-    return K.AddDataProviderReq(aid, ts, loc, {"cam": {"v": code // 2}}, K.TimeValidity(1 if exp else 1000))
+    return K.AddDataProviderReq(aid, ts, loc, {"cam": {"v": code // 2, "w": code // 2}}, K.TimeValidity(1 if exp else 1000))
 
 
 def val(container):
@@ -360,6 +455,7 @@ class Run:
                     self.now_its = K.TimestampIts.initialize_with_utc_timestamp_seconds(T0 // 1000).timestamp_its
                     self.sub_ids = {}
                     self.history = []
+                    self.live = []          # (label, objects handed out in a response / notification, deep copies taken then)
                     sched = dsched.DSched(policy, line_files=FILES, opcode_codes=opcode_codes(), max_steps=max_steps)
                     self.s = sched
                     self._instrument(variant)
@@ -395,7 +491,7 @@ class Run:
 
     def _sub_op(self, me, kind, fn):
         ctx = self.cur.get(me.tid if me else None)
-        if ctx is None:
+        if ctx is None or ctx["op"][0] in ("gc", "attend"):      # an explicit pass is its own operation already
             return fn()
         # close the enclosing add, open the triggered pass
         if not ctx.get("closed"):
@@ -419,6 +515,7 @@ class Run:
     def _callback(self, sid):
         def cb(resp):
             rows = tuple(val(d) for d in resp.data_objects)
+            self.live.append((f"notification of subscription {sid}", list(resp.data_objects), copy.deepcopy(list(resp.data_objects))))
             me = self.s.me()
             ctx = self.cur.get(me.tid if me else None)
             self.s.log("cb", sid, rows)
@@ -476,15 +573,21 @@ class Run:
             return () if r.data_object_id < 0 else (int(r.data_object_id),)
         if k == "upd":
             r = i3.update_provider_data(K.UpdateDataProviderReq(CAM, op[2], now, K.Location.initializer(),
-                                                                {"cam": {"v": op[3]}}, K.TimeValidity(1)))
+                                                                {"cam": {"v": op[3], "w": op[3]}}, K.TimeValidity(1)))
             return (int(r.result),)
         if k == "del":
             r = i3.delete_provider_data(K.DeleteDataProviderReq(CAM, op[2], now))
             return (1 if int(r.result) == int(K.DeleteDataProviderResult.SUCCEED) else 0,)
-        if k == "qry":
-            r = i4.request_data_objects(K.RequestDataObjectsReq(AIDS[op[2]], (CAM,), None, None, None))
+        if k in ("qry", "qryf"):
+            flt = None
+            if k == "qryf":
+                flt = K.Filter(K.FilterStatement("cam.v", K.ComparisonOperators.EQUAL, op[3]), K.LogicalOperators.AND,
+                               K.FilterStatement("cam.w", K.ComparisonOperators.EQUAL, op[4]))
+            r = i4.request_data_objects(K.RequestDataObjectsReq(AIDS[op[2]], (CAM,), None, None, flt))
             if int(r.result) != 0:
                 return (0, None)
+            # the response as the consumer receives it: the objects themselves and a deep copy taken NOW
+            self.live.append((f"response of {op}", list(r.data_objects), copy.deepcopy(list(r.data_objects))))
             return (1, tuple(val(d) for d in r.data_objects))
         if k == "sub":
             sid = op[3]
@@ -578,6 +681,19 @@ class Run:
         ids = [r["resp"][0] for r in self.history if r["op"][0] in ("add", "dbins") and r["resp"]]
         if len(set(ids)) != len(ids):
             bad.append(f"identifiers not unique: {sorted(ids)}")
+        # a response is a value: what a consumer was handed must still be what it was handed (no operation rewrites
+        # objects already returned); and a filtered request returns only objects that satisfy its filter
+        for label, objs, snap in self.live:
+            if objs != snap:
+                chg = next((a, b) for a, b in zip(snap, objs) if a != b)
+                bad.append(f"ALIASING: {label} changed after it was delivered: object was {chg[0].get('dataObject')} and is "
+                           f"now {chg[1].get('dataObject')} (a stored object was modified in place)")
+                break
+        for r in self.history:
+            if r["op"][0] == "qryf" and r["resp"][0] == 1 and (r["op"][3] != r["op"][4] or any(v != r["op"][3] for v in r["resp"][1])):
+                if r["resp"][1]:
+                    bad.append(f"FILTER: {r['op']} returned {r['resp'][1]}: no object ever satisfied cam.v == {r['op'][3]} AND "
+                               f"cam.w == {r['op'][4]} (every object carries v == w)")
         hist = [(r["op"], r["resp"], r["inv"], r["ret"]) for r in self.history]
         if not linearizable(hist, self.final_key(), fixed, sc.get("setup", [])):
             bad.append("NOT-LINEARIZABLE: no sequential order of the operations explains responses "
@@ -672,7 +788,22 @@ def scenarios(ctx):
               "threads": [[["add", 2, 1, 3]], [["add", 3, 1, 4]]]})
     S.append({"name": "dereg-attend", "needs": ["dereg_drops_subs", "attend_checks_first"], "setup": P + [["sub", 1, 1, 101], ["add", 2, 1, 4]],
               "threads": [[["deregC", 3, 1]], [["attend", 4]]]})
+    # a consumer registers and subscribes while an attendance pass runs (registry read vs. subscription snapshot)
+    S.append({"name": "reg-sub-attend", "needs": ["dereg_drops_subs", "attend_checks_first"], "setup": [["regP", 1], ["add", 1, 1, 4]],
+              "threads": [[["attend", 5]], [["regC", 1], ["sub", 2, 1, 101]]]})
+    # responses are values: a request answered before / while an update runs must not change afterwards
+    S.append({"name": "qry-upd-qry", "needs": ["update_keeps_record"], "setup": P + [["add", 1, 1, 4]],
+              "threads": [[["qry", 2, 1], ["qry", 4, 1]], [["upd", 3, 0, 6]]]})
+    # the same object deleted twice, the same subscription cancelled twice, the same application deregistered twice
+    S.append({"name": "del-del", "needs": ["delete_by_id"], "setup": P + [["add", 1, 1, 4]], "threads": [[["del", 2, 0]], [["del", 3, 0]]]})
+    S.append({"name": "unsub-unsub", "setup": P + [["sub", 1, 1, 101]], "threads": [[["unsub", 2, 1, 101]], [["unsub", 3, 1, 101]]]})
+    S.append({"name": "dereg-dereg", "needs": ["dereg_drops_subs"], "setup": P + [["sub", 1, 1, 101]],
+              "threads": [[["deregP", 2, 1], ["deregC", 3, 1]], [["deregP", 4, 1]], [["deregC", 5, 1]]]})
+    for g in range(ctx.scale(3, 40)):
+        S.append(gen_scenario(ctx.rng, g, ctx.thorough))
     if ctx.thorough:
+        S.append({"name": "upd-qryf", "nomodel": True, "needs": ["update_keeps_record"], "setup": P + [["add", 1, 1, 4]],
+                  "threads": [[["upd", 2, 0, 3]], [["qryf", 3, 1, 2, 3], ["qryf", 4, 1, 3, 3]]]})
         S.append({"name": "thread-mix", "variant": "thread", "needs": ["delete_by_id", "update_keeps_record"], "setup": P,
                   "threads": [[["add", 1, 1, 3], ["upd", 2, 0, 4]], [["gc", 3]], [["qry", 4, 1], ["del", 5, 0]], [["add", 6, 1, 8]]]})
         S.append({"name": "subs4", "needs": ["dereg_drops_subs", "attend_checks_first"], "setup": P + [["add", 1, 1, 4]],
@@ -680,31 +811,144 @@ def scenarios(ctx):
     return S
 
 
+def gen_scenario(rng, idx, thorough):
+    """a random scenario over the whole operation alphabet: 2-3 (thorough: 2-4) threads, 1-2 (1-4) calls each, any of
+    the three variants; two objects, one provider, one consumer and one subscription may exist beforehand.  Operation
+    ids are unique (1..9), object ids / application ids / subscription ids are drawn from a small pool so that
+    operations collide on purpose."""
+    variant = rng.choice(["plain", "plain", "reactive", "thread"])
+    setup, nobj, sids = [], 0, []
+    if rng.random() < 0.85:
+        setup.append(["regP", 1])
+    if rng.random() < 0.85:
+        setup.append(["regC", 1])
+    oid = [0]
+
+    def fresh():
+        oid[0] += 1
+        return oid[0]
+    if ["regP", 1] in setup:
+        for _ in range(rng.randint(0, 2)):
+            # (reactive variants run a maintenance pass inside every add: set-up objects are unexpired there)
+            setup.append(["add", fresh(), 1, rng.choice([2, 4, 6] if variant == "reactive" else [2, 3, 4, 5, 6, 7])])
+            nobj += 1
+    if ["regC", 1] in setup and rng.random() < 0.5:
+        setup.append(["sub", fresh(), 1, 101])
+        sids.append(101)
+    nthreads = rng.randint(2, 4 if thorough else 3)
+    budget = (9 if thorough else 6) - oid[0]
+    threads, nsid = [], [102]
+    for _ in range(nthreads):
+        ops = []
+        for _ in range(rng.randint(1, 4 if thorough else 2)):
+            if budget <= 0:
+                break
+            budget -= 1
+            k = rng.choice(["add", "add", "upd", "upd", "del", "del", "qry", "qry", "sub", "unsub", "gc", "attend",
+                            "regP", "regC", "deregP", "deregC"])
+            if k in ("regP", "regC"):
+                budget += 1
+                ops.append([k, 1])
+            elif k in ("deregP", "deregC"):
+                ops.append([k, fresh(), 1])
+            elif k == "add":
+                ops.append(["add", fresh(), 1, rng.choice([2, 3, 4, 5, 6, 7, 8, 9])])
+            elif k == "upd":
+                ops.append(["upd", fresh(), rng.randint(0, max(nobj, 1)), rng.choice([1, 2, 3, 4])])
+            elif k == "del":
+                ops.append(["del", fresh(), rng.randint(0, max(nobj, 1))])
+            elif k == "qry":
+                ops.append(["qry", fresh(), 1])
+            elif k == "sub":
+                ops.append(["sub", fresh(), 1, nsid[0]])
+                sids.append(nsid[0])
+                nsid[0] += 1
+            elif k == "unsub":
+                ops.append(["unsub", fresh(), 1, rng.choice(sids) if sids else 101])
+            else:
+                ops.append([k, fresh()])
+        if ops:
+            threads.append(ops)
+    while len(threads) < 2:
+        threads.append([["qry", fresh(), 1]])
+    kinds = {op[0] for th in [setup] + threads for op in th}
+    needs = set()
+    if "upd" in kinds:
+        needs.add("update_keeps_record")
+    if "del" in kinds:
+        needs.add("delete_by_id")
+    if kinds & {"deregC", "attend", "sub"} or variant == "reactive":
+        needs |= {"dereg_drops_subs", "attend_checks_first"}
+    return {"name": f"gen#{idx}", "variant": variant, "generated": True, "needs": sorted(needs), "setup": setup, "threads": threads}
+
+
 def classify(sc, bad, run=None):
-    """C16-KF1: an update racing with a removal (delete / maintenance pass) of the same object.  With the
-    maintenance-thread lock only the milder form is in the known region: the update answers 'inconsistent type' (2)
-    where a sequential order would answer 'unknown id' (1) – the history must be linearisable once 2 is read as 1."""
-    ops = [op for th in sc["threads"] for op in th]
-    if sc.get("variant", "plain") == "thread":
-        if run is None or not all(b.startswith("NOT-LINEARIZABLE") for b in bad):
-            return None
-        hist = [(r["op"], ((1,) if (r["op"][0] == "upd" and r["resp"] == (2,)) else r["resp"]), r["inv"], r["ret"])
-                for r in run.history]
-        changed = any(r["op"][0] == "upd" and r["resp"] == (2,) for r in run.history)
-        if changed and linearizable(hist, run.final_key(), VARIANT, sc.get("setup", [])):
-            return "C16-KF1"
+    """Membership of a non-linearisable history in a KNOWN finding, decided on the history itself (never on the mere
+    presence of an update / deregistration in the scenario):
+    C16-KF2  the history is linearisable once the gated operations that OVERLAP a deregistration of their own application
+             (`kf2_region`) get two linearisation points (registration check, action);
+    C16-KF1  the history is linearisable once every `upd` is executed as the code executes it (exists ; get ; get ;
+             update at four instants - `upd_steps`): the only freedom granted is the update's own check-then-act, so
+             what it explains is exactly the re-created row of that id / the 'inconsistent type' answer for that id.
+    Anything else - and any other kind of violation in the same run - is reported."""
+    if run is None or not bad or not all(b.startswith("NOT-LINEARIZABLE") for b in bad):
         return None
-    if run is not None and all(b.startswith("NOT-LINEARIZABLE") for b in bad) and \
-            any(op[0] in ("deregP", "deregC") for op in ops):
-        hist = [(r["op"], r["resp"], r["inv"], r["ret"]) for r in run.history]
-        if linearizable(hist, run.final_key(), VARIANT, sc.get("setup", []), split_gates=True):
-            return "C16-KF2"
-    upd_ids = {op[2] for op in ops if op[0] == "upd"}
-    removal = any(op[0] == "del" and op[2] in upd_ids for op in ops) or any(op[0] == "gc" for op in ops) or \
-        (sc.get("variant") == "reactive" and any(op[0] == "add" for op in ops))
-    if upd_ids and removal and all(b.startswith("NOT-LINEARIZABLE") for b in bad):
-        return "C16-KF1"
+    hist = [(r["op"], r["resp"], r["inv"], r["ret"]) for r in run.history]
+    fk, setup = run.final_key(), sc.get("setup", [])
+    tv = sc.get("variant", "plain") == "thread"
+    region = kf2_region(hist)
+    if region and linearizable(hist, fk, VARIANT, setup, split_gates=region):
+        return "C16-KF2"
+    if any(h[0][0] == "upd" for h in hist):
+        if linearizable(hist, fk, VARIANT, setup, split_upd=True, thread_variant=tv):
+            return "C16-KF1"
+        if region and linearizable(hist, fk, VARIANT, setup, split_gates=region, split_upd=True, thread_variant=tv):
+            return "C16-KF1"
     return None
+
+
+BOUNDARY_KINDS = {"acq", "rel", "start", "end", "blocked"}
+
+
+def enumerate_prioritised(run_once, bound, cap, rng):
+    """Systematic stateless search like dsched.enumerate_schedules, but ordered: schedules are generated in order of
+    (number of pre-emptions at a bytecode INSIDE a function, number of pre-emptions) - so every schedule that pre-empts
+    only at lock boundaries (just before an acquire / just after a release / thread start and end) is run before any
+    schedule that pre-empts between two bytecodes, and fewer pre-emptions come first.  A check-then-act window between
+    two lock sections, or between an unlocked read and the lock section that uses it, is therefore hit within the first
+    few dozen runs whatever the cap.  Returns (#runs, exhausted)."""
+    buckets = {(0, 0): [((), 0, 0)]}
+    seen = {()}
+    runs = 0
+    while buckets:
+        if runs >= cap:
+            return runs, False
+        key = min(buckets)
+        work = buckets[key]
+        prefix, base_ops, _ = work.pop(rng.randrange(len(work)))
+        if not work:
+            del buckets[key]
+        steps = run_once(list(prefix))
+        runs += 1
+        choices = [s[0] for s in steps]
+        p = dsched.preemptions(steps, len(prefix))
+        for i in range(len(prefix), len(steps)):
+            chosen, enabled, cur, kind = steps[i]
+            for alt in enabled:
+                if alt == chosen or kind not in dsched.BRANCH_KINDS:
+                    continue
+                pre = cur is not None and cur in enabled and alt != cur
+                cost = p + (1 if pre else 0)
+                if cost > bound:
+                    continue
+                child = tuple(choices[:i] + [alt])
+                if child not in seen:
+                    seen.add(child)
+                    nops = base_ops + (1 if pre and kind not in BOUNDARY_KINDS else 0)
+                    buckets.setdefault((nops, cost), []).append((child, nops, cost))
+            if cur is not None and cur in enabled and chosen != cur:
+                p += 1
+    return runs, True
 
 
 def explore(ctx, sc, bound, cap, n_pct, observed, model=True):
@@ -712,9 +956,9 @@ def explore(ctx, sc, bound, cap, n_pct, observed, model=True):
 
     def handle(run):
         ctx.evals()
-        out = run.outcome() if not sc.get("db_only") else None
+        out = run.outcome() if not (sc.get("db_only") or sc.get("nomodel")) else None
         bad = run.judge(VARIANT)
-        ctx.cover("runs_" + sc["name"])
+        ctx.cover("runs_" + sc["name"].split("#")[0])
         ctx.cover("preemptions_%d" % min(dsched.preemptions(run.steps), 4))
         ctx.nontrivial((sc["name"], out, tuple((tuple(r["op"]), r["resp"]) for r in run.history)))
         if bad:
@@ -736,7 +980,7 @@ def explore(ctx, sc, bound, cap, n_pct, observed, model=True):
         state["est"] = max(state["est"], run.s.nsteps)
         return run.steps
 
-    runs, exhausted = dsched.enumerate_schedules(once, bound, cap, ctx.rng)
+    runs, exhausted = enumerate_prioritised(once, bound, cap, ctx.rng)
     ctx.cover("systematic_runs", runs)
     if exhausted:
         ctx.cover("systematic_exhausted_bound_%d" % bound)
@@ -772,13 +1016,16 @@ def usable(sc):
 
 def run(ctx):
     ctx.extra["rule"] = ("real threads on a real LDM (IF.LDM.3/4, maintenance and attendance passes; plain, reactive and thread "
-                         "variants) under the deterministic scheduler; per scenario systematic enumeration up to the "
-                         "pre-emption bound (capped) then PCT; every history is checked for linearisability against the "
-                         "reference map and its outcome looked up in the outcome set of the Lean block model; "
-                         "distinct_nontrivial counts distinct (scenario, outcome, responses) triples")
+                         "variants) under the deterministic scheduler; scripted scenarios + scenarios generated from the whole "
+                         "operation alphabet; per scenario systematic enumeration up to the pre-emption bound (capped), schedules "
+                         "that pre-empt only at lock boundaries first, then PCT; every history is checked for linearisability "
+                         "against the reference map (known findings waived only when the history is explained by the finding's "
+                         "own split), for responses staying unchanged after delivery, and its outcome looked up in the outcome "
+                         "set of the Lean block model; distinct_nontrivial counts distinct (scenario, outcome, responses) triples")
     VARIANT.update(detect_variants())
     ctx.extra["variant"] = dict(VARIANT)
-    bound, cap, n_pct = ctx.scale(2, 3), ctx.scale(110, 1800), ctx.scale(25, 500)
+    bound, cap, n_pct = ctx.scale(2, 3), ctx.scale(110, 1000), ctx.scale(25, 300)
+    gcap, gpct = ctx.scale(110, 200), ctx.scale(25, 60)          # generated scenarios: many, each explored less deeply
     for name, c in corpus("C16"):
         case = c.get("case", c)
         if not usable(case["scenario"]):
@@ -796,8 +1043,11 @@ def run(ctx):
             ctx.cover("scenarios_skipped")
             continue
         observed = {}
-        explore(ctx, sc, bound, cap, n_pct, observed)
-        if not sc.get("db_only"):
+        if sc.get("generated"):
+            explore(ctx, sc, bound, gcap, gpct, observed)
+        else:
+            explore(ctx, sc, bound, cap, n_pct, observed)
+        if not (sc.get("db_only") or sc.get("nomodel")):
             batches.append((sc, observed))
         ctx.sample("scenario", {"scenario": sc["name"], "outcomes": len(observed),
                                 "example": next((k[1] for k in observed), None)})
@@ -809,7 +1059,8 @@ def search(ctx):
     for sc in scenarios(ctx):
         if not usable(sc):
             continue
-        explore(ctx, sc, ctx.scale(2, 3), ctx.scale(330, 5400), ctx.scale(75, 1500), {}, model=False)
+        k = 1 if sc.get("generated") else 3
+        explore(ctx, sc, ctx.scale(2, 3), k * ctx.scale(110, 1000), k * ctx.scale(25, 300), {}, model=False)
         if ctx.violations:
             return
 
